@@ -48,7 +48,7 @@ type Prop struct {
 
 var Registry = map[string]*Prop{}
 
-var watchdogSecs = 45
+var watchdogSecs = 90
 
 func register(p *Prop) { Registry[p.ID] = p }
 
